@@ -152,6 +152,11 @@ def callerWritten (es : List Effect) : Str :=
 def withoutCallerWrites (es : List Effect) : List Effect :=
   es.filter fun e => match e with | .callerWrite _ => false | _ => true
 
+/-- `sort.Slice(keys, by key text, then by value text)` of Dict.render (any correct sort gives the
+    same list up to pairs with equal key AND value text; the model sorts the same way) -/
+def kvLe (a b : Str × Str × Code × Code) : Bool := dictLe (a.1, a.2.1) (b.1, b.2.1)
+def sortKV (l : List (Str × Str × Code × Code)) : List (Str × Str × Code × Code) := l.mergeSort kvLe
+
 /-- `sort.Strings` (bytewise order) -/
 def sortStrings (l : List Str) : List Str := l.mergeSort Str.le
 
